@@ -121,7 +121,15 @@ func Interval(interval time.Duration) Observable[int64] {
 // Play: https://go.dev/play/p/Xhi6c336ldy
 func IntervalWithInitial(initial, interval time.Duration) Observable[int64] {
 	return NewObservableWithContext(func(ctx context.Context, destination Observer[int64]) Teardown {
-		ticker := time.NewTicker(initial * 2)
+		// The ticker only starts counting once the initial delay has elapsed (it is
+		// Reset below); until then it just must not fire. time.NewTicker panics on a
+		// non-positive duration, and initial may be zero.
+		tickerDuration := initial * 2
+		if tickerDuration <= 0 {
+			tickerDuration = interval
+		}
+
+		ticker := time.NewTicker(tickerDuration)
 		timer := time.NewTimer(initial)
 		done := make(chan struct{}, 1)
 
